@@ -8,6 +8,7 @@ Core Lean only.
 -/
 import CBV.Model.C19Base
 import CBV.Model.C19Geo
+import CBV.Gen.TC19
 
 namespace CBV.C19
 
